@@ -93,6 +93,10 @@ def boot(log_level=None):
     dbusmod.install()
     import gi.repository.GLib  # noqa: F401  (the shim)
 
+    import warnings
+    # corrupted certificates (bit flips in an x5chain) make ``cryptography`` warn about what it will reject in future
+    warnings.filterwarnings('ignore', module='certvalidator')
+    warnings.filterwarnings('ignore', message='.*serial number.*')
     logging.raiseExceptions = False
     if log_level is None:
         logging.disable(logging.CRITICAL)
